@@ -1,6 +1,52 @@
-(* Props/Properties_C12.v - statements only; see DESIGN.md section 8 C12. *)
-From Adm Require Import Heap.Exec gen.PlansGen Heap.PlanChecks.
+(* Props/Properties_C12.v - C12: StreamFormat and TrackFormat references stay mutually consistent.
+   Statements only.  Sync s: a track format references S exactly when S lists it, and S lists it once.
+
+   Full statement aimed at:   forall P ops, Sync (run P ops empty_state)
+   (every history, calls that throw included).  Proved below for every call except that a *failing*
+   AudioStreamFormat::addReference(track) / AudioTrackFormat::setReference(stream) is not covered:
+   between the two writes of those calls the model passes through an unsynchronised state, and showing
+   that no exception can be raised there needs the parent/listing invariant of C03.  That half is
+   explored by the correspondence and the oracle (which check Sync after calls that throw, too). *)
+From Adm Require Import Heap.Exec gen.PlansGen Heap.PlanChecks Heap.Frame Heap.Writes Heap.Sync.
 
 Theorem C12_plans_recognised : plans_problems = [] /\ add_plan_complete gen_plans = true /\ plans_typed gen_plans = true.
 Proof. exact (conj plans_recognised (conj gen_add_plan_complete gen_plans_typed)). Qed.
 Print Assumptions C12_plans_recognised.
+
+(* one call, from any synchronised state: every outcome of every call, success of the two linking calls *)
+Theorem C12_step_partial : forall P o s s' r, Sync s -> exec P o s = (s', r) ->
+  (is_link o = true -> exists v, r = inl v) -> Sync s'.
+Proof. exact sync_step. Qed.
+Print Assumptions C12_step_partial.
+
+(* all histories in which the linking calls, when they occur, succeed *)
+Theorem C12_invariant_partial : forall P ops, run_ok P ops empty_state ->
+  Sync (fold_left (fun s o => fst (exec P o s)) ops empty_state).
+Proof. intros P ops. exact (sync_invariant P ops empty_state empty_sync). Qed.
+Print Assumptions C12_invariant_partial.
+
+(* the de-linking half of the protocol holds for every outcome *)
+Theorem C12_unset_any_outcome : forall t s s' r, Sync s -> track_unset_stream t s = (s', r) -> Sync s'.
+Proof. exact track_unset_sync. Qed.
+Print Assumptions C12_unset_any_outcome.
+
+Theorem C12_remove_any_outcome : forall st t s s' r, Sync s -> stream_remove_track st t s = (s', r) -> Sync s'.
+Proof. exact stream_remove_sync. Qed.
+Print Assumptions C12_remove_any_outcome.
+
+Theorem C12_clear_any_outcome : forall a s s' r, Sync s -> clear_refs StreamTrack a s = (s', r) -> Sync s'.
+Proof. exact clear_streamtrack_sync. Qed.
+Print Assumptions C12_clear_any_outcome.
+
+Theorem C12_document_remove_any_outcome : forall P d h s s' r, Sync s -> doc_remove P d h s = (s', r) -> Sync s'.
+Proof. exact ipres_doc_remove. Qed.
+Print Assumptions C12_document_remove_any_outcome.
+
+(* the linking half, on success *)
+Theorem C12_set_reference_ok : forall P t st s s' u, Sync s -> track_set_stream P t st s = (s', inl u) -> Sync s'.
+Proof. exact track_set_stream_ok. Qed.
+Print Assumptions C12_set_reference_ok.
+
+Theorem C12_add_reference_ok : forall P st t s s' b, Sync s -> stream_add_track P st t s = (s', inl b) -> Sync s'.
+Proof. exact stream_add_track_ok. Qed.
+Print Assumptions C12_add_reference_ok.
